@@ -818,9 +818,10 @@ def library_oracle_(ctx, n, config, floor0):
             for how, cl in common.clone_routes(comp):
                 ccase = dict(case, copy=how)
                 ctx.case(ccase, kind="lib_copy:" + how)
+                if isinstance(cl, Exception):      # computers that refuse to be copied: no copy, nothing to check
+                    ctx.count("not_copyable:" + how)
+                    continue
                 try:
-                    if isinstance(cl, Exception):
-                        raise cl
                     full_c = cl.compute_full(x)
                 except Exception as e:
                     ctx.violation(ccase, "a computer", "%s: %s" % (type(e).__name__, str(e)[:150]), "a copied computer computes",
